@@ -176,7 +176,7 @@ func main() {
 		fmt.Println("VERIF_C20_DRIVER not set")
 		os.Exit(2)
 	}
-	total := c.Pick(40, 2000)
+	total := c.Pick(40, 4000)
 	per := total / c.NBatch
 	from, to := c.Range(per)
 	if from >= to {
